@@ -240,6 +240,16 @@ theorem C18_unit_no_truncated_path {L L' : Limits} (hle : L ≤ L') (hs : Sane L
       ((valueFrom orc (F L) i = valueFrom orc (F L') i ∧ rels = [] ∧ pre = callsFrom orc (F L') i) ∨ E (valueFrom orc (F L) i)) :=
   (h.sim hle hs).trace_relErr orc i
 
+/-- In stdin mode the unit that can overflow before any message exists is the spool (`maildir_stdin`: the template in
+TMPDIR, `root/new`, the generated name).  After ANY outcome of it - overflow included - `maildir_close` removes what was
+created with `rmdir(md_path)`, `rmdir(md_root)`; `md_path` is then the empty string or `md_root/new` IN FULL (and
+`md_root` the empty string or what `mkdtemp` returned): the buffers are cleared on overflow, a shortened path is never
+removed.  (The pinned defect of DESIGN section 4 - `rmdir` of a truncated `md_root` - is gone with /repo commit adcfac2.) -/
+theorem C18_spool_cleanup_paths (L : Limits) (env : PEnv) (input : Bytes) :
+    All (fun r : Maildir × Bool × Option Bytes => r.1.path = [] ∨ r.1.path = r.1.root ++ [47] ++ subdirName .new)
+      (maildirStdinL L env input) :=
+  maildirStdinL_paths L env input
+
 /-- The step from `new` to `cur` cannot overflow when the maildir was opened: `root/new` and `root/cur` have the same
 length.  (So the only path a walked maildir can fail on is the one of `maildir_open`.) -/
 theorem C18_cur_fits_when_new_fits (l : Lim) (root p : Bytes) (h : pathjoinL l root (subdirName .new) = some p) :
